@@ -13,7 +13,7 @@ func init() {
 }
 
 func runC16(r *Run) {
-	r.Rule = "stateless exploration of the REAL commit/preload code under a cooperative scheduler (sources rewritten on the fly: every goroutine start, channel send/receive/close, select-default, WaitGroup operation and sync.Pool Get/Put is a scheduling point): all schedules up to the preemption bound (iterative context bounding) for FastCommit / NondeterministicFastCommit with 1-3 workers over a corpus of pending write sets (incl. one slab that fails to encode), BatchPreload of 12+ registers with 2-3 workers (incl. one undecodable register), and 2-3 independent clients with their own storages colliding on the process-wide digester / buffer / type-id pools (LIFO pool shim with a poison check); every execution: no deadlock, no panic, no pool poison, registers + ledger call log (ordered for the deterministic commit, as a multiset for the relaxed one) + cache + write set + error equal to the one-goroutine execution, each client equal to its solo run. states = executions (distinct schedules); plus a free-running -race pass of the same bodies"
+	r.Rule = "stateless exploration of the REAL commit/preload code under a cooperative scheduler (sources rewritten on the fly: every goroutine start, channel send/receive/close, select-default, WaitGroup operation and sync.Pool Get/Put is a scheduling point): all schedules up to the preemption bound (iterative context bounding) for FastCommit / NondeterministicFastCommit with 1-3 workers (and 8 / 64 workers at one preemption) over a corpus of pending write sets (incl. one slab that fails to encode), BatchPreload of 12+ registers with 2-3 workers (incl. one undecodable register), and 2-3 independent clients with their own storages colliding on the process-wide digester / buffer / type-id pools (LIFO pool shim with a poison check); every execution: no deadlock, no panic, no pool poison, registers + ledger call log (ordered for the deterministic commit, as a multiset for the relaxed one) + cache + write set + error equal to the one-goroutine execution, each client equal to its solo run. states = executions (distinct schedules); plus a free-running -race pass of the same bodies"
 	r.Assumptions = []string{
 		"memory-ordering effects below Go's synchronisation primitives are not modelled; unsynchronised accesses are the free-running -race pass's job (a cooperative scheduler's hand-offs are happens-before edges)",
 		"sync.Pool is replaced by a deterministic LIFO stack shared by all goroutines (the adversarial choice for reuse)",
@@ -47,6 +47,18 @@ func runC16(r *Run) {
 		for _, v := range []int{0, 1} {
 			args = append(args, schedArg{Scenario: "preload", Workers: wk, Variant: v, Bounds: schedBounds{Preempt: pre}, Budget: budget})
 		}
+	}
+	// many workers (more than there are slabs / registers: the library clamps the count): 8 and 64.  With that many
+	// goroutines even the schedules WITHOUT preemption (free choices whenever a goroutine blocks or ends) are too many
+	// to finish under the budget: these scenarios are supplementary — as many distinct schedules as the budget
+	// allows, in the explorer's canonical order — and are reported separately from the bounded ones
+	for _, wk := range []int{8, 64} {
+		for _, relaxed := range []bool{false, true} {
+			args = append(args, schedArg{Scenario: "commit", Hist: 6, Relaxed: relaxed, Workers: wk, Bounds: schedBounds{Preempt: 1}, Budget: budget, Supp: true})
+			args = append(args, schedArg{Scenario: "commit", Hist: 1, Relaxed: relaxed, Workers: wk, Variant: 1, Bounds: schedBounds{Preempt: 1}, Budget: budget, Supp: true})
+		}
+		args = append(args, schedArg{Scenario: "preload", Workers: wk, Variant: 0, Bounds: schedBounds{Preempt: 1}, Budget: budget, Supp: true})
+		args = append(args, schedArg{Scenario: "preload", Workers: wk, Variant: 1, Bounds: schedBounds{Preempt: 1}, Budget: budget, Supp: true})
 	}
 	r.RunTaskGroup(fmt.Sprintf("parallel commit / preload, preemption bound %d", pre), "sched", args)
 	// every pending write set reachable inside a bounded universe, not only the corpus: both commits, 2 workers
@@ -188,6 +200,10 @@ func reportBounds(r *Run, requested int) {
 	r.Extra["scenarios_by_highest_completed_deviation_bound"] = hist
 	r.Extra["deviation_bound_completed_by_all_scenarios"] = minDone
 	r.Extra["deviation_bound_requested"] = requested
+	if n := r.Counters["supplementary_scenarios"]; n > 0 {
+		r.Extra["supplementary_many_worker_scenarios"] = n
+		r.Extra["supplementary_scenario_executions"] = r.Counters["supplementary_scenario_executions"]
+	}
 	if r.Counters["capped_scenarios"] > 0 {
 		r.Stats.Exhaustive = false
 		r.Stats.CapHit = fmt.Sprintf("%d scenario(s) hit their time budget before finishing bound %d; every scenario completed bound %d", r.Counters["capped_scenarios"], requested, minDone)
